@@ -57,7 +57,7 @@ def c13(chk):
     account(st)
     chk.notes["datagrams_checked_for_size"] = st.get("datagrams", 0)
     hostile = {"nodes": nodes, "initKnown": True, "hostile": 2000 if quick else 200000}
-    v, st = run_schedules(chk, hostile, "hostile", nodes, invariants=C13_TRACE_INV)
+    v, st = run_schedules(chk, hostile, "hostile", nodes, invariants=C13_TRACE_INV + ["ForeignNodesAllowed"])
     account(st)
     chk.notes["executed_calls_by_action"] = ops
     for need in ("Encode", "EncodeDigest", "Hostile", "RecvDigest", "RecvDelta"):
